@@ -218,6 +218,13 @@ def gen_varpool(rng):
               "Bar", "HTTPServer", "DB", "App", "App0", "X", "X0", "X00", "Int", "String", "Error"]
     pre = [rng.choice(bases) for _ in range(rng.randint(0, 4))]
     ops = []
+    if rng.chance(0.04):
+        # one base requested many times: the numeric suffix runs through names that are predeclared themselves
+        # (int8, int16, uint8, float32, complex64, ...) or that another request uses as its base
+        b = rng.choice(["Int", "Uint", "Float", "Complex", "Int", "Uint", "Foo", "Err"])
+        for _ in range(rng.choice([10, 18, 34, 66])):
+            ops.append(("t:" if rng.chance(0.7) else "c:") + b)
+        return "%s | %s" % (" ".join(pre), " ".join(ops))
     for _ in range(rng.randint(1, 12)):
         k = rng.random()
         if k < 0.4:
